@@ -102,6 +102,12 @@ def check(ctx, rep):
     rep.require(len(DF) == 1, "retry: the job field holding the delegate's future is not unique (%s)" % sorted(DF))
     DFF = DF.pop()
 
+    # the re-check above excludes a concurrent cancel() only if cancel()'s own state transition is made under that
+    # same lock of the future (shared with C02)
+    from .c02 import trans_rule
+    P_ = roles.proto(ctx)
+    trans_rule(ctx, rep, [c for c in prog.subclasses(fut, strict=True)], P_.dispatch, P_.lock)
+
     # ------------------------------------------------------------------ R-STOPRETRY (cancel root)
     ps, it = ctx.paths(fut.methods["cancel"], rfut, depth=6, inline=_no_cb_inline, loads=(STOP,))
     nin = 0
